@@ -121,13 +121,13 @@ func init() {
 		},
 	}
 	var c08quick, c08all []int
-	for ti := 0; ti < 10; ti++ {
+	for ti := 0; ti < 11; ti++ {
 		c08quick = append(c08quick, ti*4+(ti%4))
 		for k := 0; k < 4; k++ {
 			c08all = append(c08all, ti*4+k)
 		}
 	}
-	c08quick = append(c08quick, 0*4+1, 2*4+0, 3*4+0, 5*4+3)
+	c08quick = append(c08quick, 0*4+1, 2*4+0, 3*4+0, 5*4+3, 10*4+1)
 	props["C08"] = PropSpec{
 		ID: "C08",
 		Runs: []HarnessRun{
@@ -143,14 +143,14 @@ func init() {
 		},
 	}
 	var c04quick, c04all []int
-	for ti := 0; ti < 10; ti++ {
+	for ti := 0; ti < 11; ti++ {
 		c04quick = append(c04quick, ti*4+(ti%4))
 		for k := 0; k < 4; k++ {
 			c04all = append(c04all, ti*4+k)
 		}
 	}
 	c04quick = append(c04quick, 6*4+1, 6*4+3, 3*4+2, 0*4+3, 2*4+0, 1*4+0, 100+6*4+3, 100+3*4+2, 100+0*4+1, 100+9*4+1, 100+9*4+2)
-	for ti := 0; ti < 10; ti++ {
+	for ti := 0; ti < 11; ti++ {
 		for k := 1; k < 4; k++ {
 			c04all = append(c04all, 100+ti*4+k)
 		}
@@ -161,8 +161,8 @@ func init() {
 			{Rel: ".", Dir: "fiber", Entry: "VH_C04_mount", Cases: tierCases(c04quick, c04all), Reach: []string{"handlers-ran", "nothing-ran"}, MaxPaths: 100000},
 		},
 		Bounds: map[string]string{
-			"quick":    "10 composition trees (mount before/after sibling routes, nested mount, mount from a group, '/' and trailing-slash prefixes, children spelled without a leading slash, parameterised prefix, sub-app '/*', upper-case paths), one routing config each (+4), each built three ways: real mounting, groups, flat full paths; request method from the tree's list, path fully symbolic at the listed lengths (<= 8)",
-			"thorough": "10 trees x 4 routing configs (CaseSensitive x StrictRouting, shared by parent and sub-apps)",
+			"quick":    "11 composition trees (mount before/after sibling routes, nested mount, mount from a group, '/' and trailing-slash prefixes, children spelled without a leading slash, parameterised prefix, sub-app '/*', upper-case paths), one routing config each (+4), each built three ways: real mounting, groups, flat full paths; request method from the tree's list, path fully symbolic at the listed lengths (<= 8)",
+			"thorough": "11 trees x 4 routing configs (CaseSensitive x StrictRouting, shared by parent and sub-apps)",
 		},
 		Assumptions: []string{
 			"sub-apps use either the parent's routing configuration or the default one (cases >= 100); the group world always uses the parent's",
@@ -194,7 +194,7 @@ func init() {
 		},
 	}
 	var c10quick, c10all []int
-	for ci := 0; ci < 15; ci++ {
+	for ci := 0; ci < 17; ci++ {
 		c10quick = append(c10quick, ci*4+(ci%4))
 		for k := 0; k < 4; k++ {
 			c10all = append(c10all, ci*4+k)
@@ -208,8 +208,8 @@ func init() {
 			{Rel: ".", Dir: "fiber", Entry: "VH_C10_list", Cases: tierCases([]int{0, 1, 2}, []int{0, 1, 2, 3}), Reach: []string{"listed"}, MaxPaths: 100000},
 		},
 		Bounds: map[string]string{
-			"quick":    "15 proxy configurations (empty set, single v4 and v6 address, CIDR /8 /24 /31, v6 /32, each class flag, combinations, IP validation, v4-mapped and v6 peers), one forwarding-header family each (+6): peer address fully symbolic (4 bytes; v6: 4 symbolic bytes of a 16-byte address), forwarded value a symbolic string of length 1..3; validated client IP from a list: an invalid symbolic entry (1..3 bytes over [0-9a-f.:]) followed by a valid v4 or v6 entry",
-			"thorough": "15 configurations x 4 header families; list harness x 2 separators x 2 families",
+			"quick":    "17 proxy configurations (two of them taken from another application's Config(); empty set, single v4 and v6 address, CIDR /8 /24 /31, v6 /32, each class flag, combinations, IP validation, v4-mapped and v6 peers), one forwarding-header family each (+6): peer address fully symbolic (4 bytes; v6: 4 symbolic bytes of a 16-byte address), forwarded value a symbolic string of length 1..3; validated client IP from a list: an invalid symbolic entry (1..3 bytes over [0-9a-f.:]) followed by a valid v4 or v6 entry",
+			"thorough": "17 configurations x 4 header families; list harness x 2 separators x 2 families",
 		},
 		Assumptions: []string{
 			"TrustProxy is enabled in every case; TLS off (scheme of the connection is http)",
